@@ -78,8 +78,8 @@ type Program struct {
 	refSkips   map[string][]string
 	// Canonicalised: number of `r := e; return r` shapes folded into `return e` before analysis (canon.go)
 	Canonicalised int
-	litKeys    []litKeyName
-	inlined    map[string]string // "pkg|recv|name" of a vanished function -> key of the only caller it had
+	litKeys       []litKeyName
+	inlined       map[string]string // "pkg|recv|name" of a vanished function -> key of the only caller it had
 }
 
 // skipPkg lists module packages that hold test support code only; they are
